@@ -595,7 +595,7 @@ func runC04(c *fw.Ctx) {
 		}
 	}
 	// positive: every grid point x password kinds x sessions
-	perPoint := c.Pick(1, 30)
+	perPoint := c.Pick(1, 100)
 	var pos []c04Cfg
 	for gi, g := range grid {
 		for pk := 0; pk < 5; pk++ {
@@ -658,6 +658,6 @@ func runC04(c *fw.Ctx) {
 	}
 	c.Cases(len(neg), func(i int) string { return "negative|" + neg[i].String() + fmt.Sprintf(" #%d", i) }, func(i int, k *fw.K) { c04Negative(k, neg[i]) })
 
-	nsel := c.Pick(100, 6000)
+	nsel := c.Pick(100, 20000)
 	c.Cases(nsel, func(i int) string { return fmt.Sprintf("selection|i=%d", i) }, func(i int, k *fw.K) { c04Selection(k, i) })
 }
